@@ -1,0 +1,65 @@
+//go:build verif
+
+package go9p
+
+import "sync/atomic"
+
+// Instrumentation for the runtime verification harness (build tag "verif").
+// The library calls verifPoint at named schedule points, always outside its
+// own critical sections; the harness may install a callback that records
+// the point or delays the calling goroutine.
+
+type verifHookFn func(point string, obj interface{})
+
+var verifHook atomic.Pointer[verifHookFn]
+
+// VerifSetHook installs (or, with nil, removes) the schedule point callback.
+func VerifSetHook(f func(point string, obj interface{})) {
+	if f == nil {
+		verifHook.Store(nil)
+		return
+	}
+	fn := verifHookFn(f)
+	verifHook.Store(&fn)
+}
+
+func verifPoint(point string, obj interface{}) {
+	if f := verifHook.Load(); f != nil {
+		(*f)(point, obj)
+	}
+}
+
+// VerifCounts returns the number of pending requests and of fids of the
+// connection.
+func (conn *Conn) VerifCounts() (pendingReqs, fids int) {
+	conn.Lock()
+	defer conn.Unlock()
+	for _, r := range conn.reqs {
+		for ; r != nil; r = r.next {
+			pendingReqs++
+		}
+	}
+	return pendingReqs, len(conn.fidpool)
+}
+
+// VerifCounts returns the number of outstanding requests, free tags and
+// cached request slots of the client.
+func (clnt *Clnt) VerifCounts() (outstanding, freeTags, cachedReqs int) {
+	clnt.Lock()
+	defer clnt.Unlock()
+	for r := clnt.reqfirst; r != nil; r = r.next {
+		outstanding++
+	}
+	return outstanding, len(clnt.tagpool.id), len(clnt.reqchan)
+}
+
+// VerifTag returns the tag of the request (T-message) or NOTAG.
+func (req *SrvReq) VerifTag() uint16 {
+	if req == nil || req.Tc == nil {
+		return NOTAG
+	}
+	return req.Tc.Tag
+}
+
+// VerifTag returns the tag assigned to the client request.
+func (r *Req) VerifTag() uint16 { return r.tag }
